@@ -59,7 +59,7 @@ MUTANTS = [
     ("function_grid_t0_dropped", SM, "    def __call__(self, t0, T, N):\n        n = self.normalized(N)\n        return t0 + hcat(n)*T\n\n    def normalized(self, N):\n        return self.normalized_fun(N)", "    def __call__(self, t0, T, N):\n        n = self.normalized(N)\n        return t0*(n[1]<0.9) + hcat(n)*T\n\n    def normalized(self, N):\n        return self.normalized_fun(N)", ["C06"]),
     # --- C09
     ("set_value_wrong_global_index", SM, "                found = True\n                opti.set_value(self.P[i], value)\n        for i, p in enumerate(stage.parameters['control']):", "                found = True\n                opti.set_value(self.P[i-1], value)\n        for i, p in enumerate(stage.parameters['control']):", ["C09"]),
-    ("set_value_after_transcription_not_stored", ST, "            def action(parameter, value):\n                self._method.set_value(self, self.master._method, parameter, value)      ", "            def action(parameter, value):\n                self._method.set_value(self, self.master._method, parameter, value) if not parameter.is_scalar() else None", ["C09"]),
+    ("set_value_after_transcription_not_stored", ST, "                self._method.set_value(self, self.master._method, parameter, value)\n                # Remember", "                if not parameter.is_scalar(): self._method.set_value(self, self.master._method, parameter, value)\n                # Remember", ["C09"]),
     ("set_parameter_phase2_skipped_for_control", SM, "        for i, p in enumerate(stage.parameters['control']):\n            opti.set_value(hcat(self.P_control[i]), stage._param_value(p))", "        for i, p in enumerate(stage.parameters['control']):\n            opti.set_value(hcat(self.P_control[i]), DM(stage._param_value(p))[:,::-1] if self.N==3 else stage._param_value(p))", ["C09"]),
     # --- C11
     ("freeT_skip_nonneg", DM, "                stage.subject_to(stage._T>=0)\n", "", ["C11"]),
